@@ -399,6 +399,7 @@ func (c *HostClient) Do(ctx context.Context, req *protocol.Request, resp *protoc
 		default:
 		}
 
+		verifYield("do:attempt")
 		canIdempotentRetry, err = c.do(req, resp)
 		// If there is no custom retry and err is equal to nil, the loop simply exits.
 		if err == nil && isDefaultRetryFunc {
@@ -821,6 +822,7 @@ func (c *HostClient) acquireConn(dialTimeout time.Duration) (cc *clientConn, inP
 		c.conns = c.conns[:n]
 	}
 	c.connsLock.Unlock()
+	verifYield("acquire:unlocked")
 
 	if cc != nil {
 		return cc, true, nil
@@ -851,6 +853,7 @@ func (c *HostClient) acquireConn(dialTimeout time.Duration) (cc *clientConn, inP
 		// waiting, the dialtimeout on the hostclient is used instead of
 		// the dialtimeout in request options.
 		c.queueForIdle(w)
+		verifYield("acquire:queued")
 
 		select {
 		case <-w.ready:
@@ -865,6 +868,7 @@ func (c *HostClient) acquireConn(dialTimeout time.Duration) (cc *clientConn, inP
 	}
 
 	conn, err := c.dialHostHard(dialTimeout)
+	verifYield("acquire:dialed")
 	if err != nil {
 		c.decConnsCount()
 		return nil, false, err
@@ -886,6 +890,7 @@ func (c *HostClient) queueForIdle(w *wantConn) {
 
 func (c *HostClient) dialConnFor(w *wantConn) {
 	conn, err := c.dialHostHard(c.DialTimeout)
+	verifYield("dialFor:dialed")
 	if err != nil {
 		w.tryDeliver(nil, err)
 		c.decConnsCount()
@@ -983,11 +988,13 @@ func (c *HostClient) connsCleaner() {
 
 func (c *HostClient) closeConn(cc *clientConn) {
 	c.decConnsCount()
+	verifYield("close:afterDec")
 	cc.c.Close()
 	releaseClientConn(cc)
 }
 
 func (c *HostClient) decConnsCount() {
+	verifYield("dec:entry")
 	if c.MaxConnWaitTimeout <= 0 {
 		c.connsLock.Lock()
 		c.connsCount--
@@ -1033,6 +1040,7 @@ func releaseClientConn(cc *clientConn) {
 var clientConnPool sync.Pool
 
 func (c *HostClient) releaseConn(cc *clientConn) {
+	verifYield("release:entry")
 	cc.lastUseTime = time.Now()
 	if c.MaxConnWaitTimeout <= 0 {
 		c.connsLock.Lock()
@@ -1259,6 +1267,7 @@ func (w *wantConn) cancel(c *HostClient, err error) {
 	w.conn = nil
 	w.err = err
 	w.mu.Unlock()
+	verifYield("cancel:unlocked")
 
 	if conn != nil {
 		c.releaseConn(conn)
